@@ -2108,6 +2108,10 @@ func (t *tScreen) engage() error {
 	if t.tty == nil {
 		return ErrNoScreen
 	}
+	if t.fini {
+		// Fini has closed (or is about to close) the tty
+		return errors.New("screen is finalized")
+	}
 	t.tty.NotifyResize(func() {
 		select {
 		case t.resizeQ <- true:
